@@ -120,6 +120,7 @@ def decPrim : Prim → DProg Val
     if t ≠ 0 then .fail .deserializationFailure else
     readVarI32 >>= fun off =>
     if -86400 < off ∧ off < 86400 then pure (.int off) else .fail .deserializationFailure
+  | .varu32 => readVarU32 >>= fun n => pure (.int n)
 
 /-- `KnownSize` iterator: exactly `n` items -/
 def decKnown (d : DProg Val) : Nat → DProg (List Val)
